@@ -605,10 +605,10 @@ func asInstr(v ssa.Value) ssa.Instruction {
 // interpParts: cells of the interpreter inside the iterator.
 type interpParts struct {
 	*iterParts
-	typCell  *ssa.Alloc
-	sb       *ssa.Alloc
-	idCell   ssa.Value // free variable holding lastEventID
-	onRetry  ssa.Value // free variable holding the retry callback
+	typCell   *ssa.Alloc
+	sb        *ssa.Alloc
+	idCell    ssa.Value // free variable holding lastEventID
+	onRetry   ssa.Value // free variable holding the retry callback
 	loopYield *ssa.Call // the doYield call inside the loop
 	tailYield *ssa.Call // the doYield call after the loop
 	dirtyHead ssa.Value
@@ -1028,41 +1028,80 @@ func r01_8(c *Ctx) {
 		return
 	}
 	chunk := ss.Params[1]
-	// trimFirstSpace: removes exactly one leading ' '
+	// trimFirstSpace: removes exactly one leading ' ' (path-wise, both directions)
 	{
 		good := len(tf.Params) == 1
+		why := ""
 		var sliceRet, sameRet bool
-		for _, ret := range returnsOf(tf) {
-			switch v := ret.Results[0].(type) {
-			case *ssa.Slice:
-				lo, isK := constInt(v.Low)
-				if v.X == ssa.Value(tf.Params[0]) && isK && lo == 1 && v.High == nil {
-					// guarded by c[0] == ' '
-					g := false
-					for _, ifi := range ifsIn(tf) {
-						cnd := decodeIf(ifi)
-						if cnd.Y == nil || (cnd.Op != token.EQL && cnd.Op != token.NEQ) {
-							continue
+		if good {
+			p0 := tf.Params[0]
+			isLen := isLenCallOf(func(v ssa.Value) bool { return v == ssa.Value(p0) })
+			paths, okP := abstractPaths(tf, 256, nil)
+			if !okP || len(paths) == 0 {
+				good = false
+				why = "too many paths"
+			}
+			for _, p := range paths {
+				firstIsSpace, firstNotSpace, empty := false, false, false
+				for e := range p.St.Edges {
+					if len(e.From.Instrs) == 0 {
+						continue
+					}
+					ifi, isIf := e.From.Instrs[len(e.From.Instrs)-1].(*ssa.If)
+					if !isIf {
+						continue
+					}
+					cnd := decodeIf(ifi)
+					if cnd.Y != nil && (cnd.Op == token.EQL || cnd.Op == token.NEQ) {
+						if k, isK := constInt(cnd.Y); isK && k == ' ' {
+							var x, ix ssa.Value
+							switch q := cnd.X.(type) {
+							case *ssa.Index:
+								x, ix = q.X, q.Index
+							case *ssa.Lookup:
+								x, ix = q.X, q.Index
+							}
+							if i0, ok := constInt(ix); ok && i0 == 0 && x == ssa.Value(p0) {
+								if e.Idx == cnd.succWhen(cnd.Op == token.EQL) {
+									firstIsSpace = true
+								} else {
+									firstNotSpace = true
+								}
+							}
 						}
-						k, isK := constInt(cnd.Y)
-						idx, isIdx := cnd.X.(*ssa.Index)
-						if isK && k == ' ' && isIdx && idx.X == ssa.Value(tf.Params[0]) {
-							if i0, ok := constInt(idx.Index); ok && i0 == 0 && edgeDominates(ifi.Block(), cnd.succWhen(cnd.Op == token.EQL), ret.Block()) {
-								g = true
+						if k, isK := constString(cnd.Y); isK && k == "" && cnd.X == ssa.Value(p0) {
+							if e.Idx == cnd.succWhen(cnd.Op == token.EQL) {
+								empty = true
 							}
 						}
 					}
-					sliceRet = g
-				} else {
-					good = false
+					if l, h, okE, ok := intEdgeSets(ifi, isLen, 0); ok && okE[e.Idx] && l[e.Idx] == 0 && h[e.Idx] == 0 {
+						empty = true
+					}
 				}
-			case *ssa.Parameter:
-				sameRet = v == tf.Params[0]
-			default:
-				good = false
+				switch v := p.St.resolve(p.Ret.Results[0]).(type) {
+				case *ssa.Slice:
+					lo, isK := constInt(v.Low)
+					if v.X == ssa.Value(p0) && isK && lo == 1 && v.High == nil && firstIsSpace {
+						sliceRet = true
+					} else {
+						good = false
+						why = "a path returns something other than c[1:] under c[0] == ' '"
+					}
+				case *ssa.Parameter:
+					if v == p0 && (empty || firstNotSpace) {
+						sameRet = true
+					} else {
+						good = false
+						why = "a path returns the value unchanged without having established that it is empty or does not start with a space (e.g. a value that is exactly one space keeps it)"
+					}
+				default:
+					good = false
+					why = "an unrecognised result"
+				}
 			}
 		}
-		c.check(good && sliceRet && sameRet, "parser.trimFirstSpace", P.pos(tf.Pos()), "removes exactly one leading space when present, nothing otherwise", "trimFirstSpace does not remove exactly one leading U+0020 (when present): field values gain or lose spaces")
+		c.check(good && sliceRet && sameRet, "parser.trimFirstSpace", P.pos(tf.Pos()), "removes exactly one leading space when present, nothing otherwise", "trimFirstSpace does not remove exactly one leading U+0020 (when present): field values gain or lose spaces ("+why+")")
 	}
 	// colon position: strings.IndexByte(chunk, ':')
 	var colon *ssa.Call
@@ -1129,7 +1168,10 @@ func r01_8(c *Ctx) {
 		c.check(bound >= mx, "parser.scanSegment:name-length-bound", P.pos(ifi.Pos()), "the early rejection of long names keeps every valid field name", "the name-length shortcut rejects colon positions of valid field names (bound "+itoa(bound)+" < "+itoa(mx)+")")
 	}
 	// value stores
-	isOKext := func(v ssa.Value) bool { e, ok := v.(*ssa.Extract); return ok && gfn != nil && e.Tuple == ssa.Value(gfn) && e.Index == 1 }
+	isOKext := func(v ssa.Value) bool {
+		e, ok := v.(*ssa.Extract)
+		return ok && gfn != nil && e.Tuple == ssa.Value(gfn) && e.Index == 1
+	}
 	nVal := 0
 	for _, st := range slSinks(P, "parser.Field", "Value") {
 		if st.Parent() != ss {
@@ -1252,7 +1294,10 @@ func r01_9(c *Ctx, part string) {
 			c.bad(name+":shape", P.pos(fn.Pos()), "FieldParser.Next does not (split f.data with NextChunk, hand the line to scanSegment)")
 		} else {
 			ext := func(i int) func(ssa.Value) bool {
-				return func(v ssa.Value) bool { e, ok := v.(*ssa.Extract); return ok && e.Index == i && e.Tuple == ssa.Value(nc) }
+				return func(v ssa.Value) bool {
+					e, ok := v.(*ssa.Extract)
+					return ok && e.Index == i && e.Tuple == ssa.Value(nc)
+				}
 			}
 			c.check(len(ss.Call.Args) == 3 && ext(0)(ss.Call.Args[1]) && ss.Call.Args[2] == ssa.Value(out) && guardedByBool(fn, ss.Block(), ext(2), true),
 				name+":line-to-scanSegment", P.ipos(ss), "the line NextChunk returned is scanned into the caller's Field, only when it was terminated", "scanSegment does not receive the terminated line returned by NextChunk (and the caller's Field)")
@@ -1577,4 +1622,145 @@ func isGlobalLoadPkg(v ssa.Value, pkg, name string) bool {
 	}
 	g, ok := a.(*ssa.Global)
 	return ok && g.Name() == name && g.Pkg != nil && g.Pkg.Pkg.Path() == pkg
+}
+
+// ---------------------------------------------------------------------------
+// R01.12: the split function's scan loop stops exactly at an event boundary
+
+func init() {
+	register(&Rule{ID: "R01.12", Title: "the scan loop of the split function stops exactly at the end of the data or at a line break that follows a non-blank line", Floor: 2, Run: r01_12})
+	p := properties["C01"]
+	p.Rules = append(p.Rules, "R01.12")
+	p.Explanation += " R01.12 event boundary: every path through one iteration of splitFunc's scan loop leaves the loop exactly when (advance == len(data)) or (the byte at advance is a line break and the line just scanned is non-empty: index >= 1), and stays otherwise (path-wise, with the interval of `index` intersected along the path, so `index > 1` or `>= 0` are both reported)."
+}
+
+func r01_12(c *Ctx) {
+	P := c.P
+	fn := P.Fn("parser.splitFunc")
+	if fn == nil || len(fn.Params) != 2 {
+		c.anchor("parser.splitFunc")
+		return
+	}
+	data := fn.Params[0]
+	name := fnLabel(fn)
+	var ni *ssa.Call
+	eachInstr(fn, func(in ssa.Instruction) {
+		if call, ok := isModCall(in, "parser.NewlineIndex"); ok && len(loopsContaining(fn, call.Block())) > 0 {
+			ni = call
+		}
+	})
+	if ni == nil {
+		c.undecided(name+":scan-loop-exit", P.pos(fn.Pos()), "no NewlineIndex call inside a loop of the split function")
+		return
+	}
+	loops := loopsContaining(fn, ni.Block())
+	L := loops[0]
+	for _, l := range loops {
+		if len(l.Blocks) < len(L.Blocks) {
+			L = l
+		}
+	}
+	isIndex := func(v ssa.Value) bool {
+		e, ok := v.(*ssa.Extract)
+		return ok && e.Tuple == ssa.Value(ni) && e.Index == 0
+	}
+	isNLC := func(v ssa.Value) bool {
+		call, ok := isModCall(v, "parser.isNewlineChar")
+		if !ok {
+			return false
+		}
+		switch ix := call.Call.Args[0].(type) {
+		case *ssa.Index:
+			return true
+		case *ssa.Lookup:
+			return true
+		case *ssa.UnOp:
+			// data[advance] on a slice: load of IndexAddr
+			if ia, ok := ix.X.(*ssa.IndexAddr); ok && ix.Op == token.MUL {
+				return carriesOnly(ia.X, data) || ia.X == ssa.Value(data)
+			}
+		}
+		return false
+	}
+	// facts of one edge
+	atEnd := func(ifi *ssa.If, e int) (val, ok bool) {
+		cnd := decodeIf(ifi)
+		if cnd.Y == nil || (cnd.Op != token.EQL && cnd.Op != token.NEQ) {
+			return false, false
+		}
+		if !(isLenOf(cnd.Y, data) || isLenOf(cnd.X, data)) {
+			return false, false
+		}
+		return e == cnd.succWhen(cnd.Op == token.EQL), true
+	}
+	stopEdge := func(e cfgEdge) bool {
+		s := e.From.Succs[e.Idx]
+		return !L.Blocks[s] || s == L.Head
+	}
+	paths, okP := walkPaths(ni.Block(), instrIndex(ni)+1, 4096, nil, nil, stopEdge)
+	if !okP || len(paths) == 0 {
+		c.undecided(name+":scan-loop-exit", P.ipos(ni), "too many (or no) paths through one iteration of the scan loop")
+		return
+	}
+	nExit, nStay := 0, 0
+	why := ""
+	for _, p := range paths {
+		if p.EndEdge == nil {
+			continue // a return from inside the loop: judged by R20.2/R20.4
+		}
+		f1T, f1F, f2T, f2F := false, false, false, false
+		lo, hi := int64(0), posInf
+		for e := range p.St.Edges {
+			if len(e.From.Instrs) == 0 {
+				continue
+			}
+			ifi, isIf := e.From.Instrs[len(e.From.Instrs)-1].(*ssa.If)
+			if !isIf {
+				continue
+			}
+			if v, ok := atEnd(ifi, e.Idx); ok {
+				if v {
+					f1T = true
+				} else {
+					f1F = true
+				}
+			}
+			if s, ok := boolEdge(ifi, isNLC); ok {
+				if s == e.Idx {
+					f2T = true
+				} else {
+					f2F = true
+				}
+			}
+			if l, h, okE, ok := intEdgeSets(ifi, isIndex, 0); ok && okE[e.Idx] {
+				if l[e.Idx] > lo {
+					lo = l[e.Idx]
+				}
+				if h[e.Idx] < hi {
+					hi = h[e.Idx]
+				}
+			}
+		}
+		if lo > hi || (f1T && f1F) || (f2T && f2F) {
+			continue // infeasible
+		}
+		leaves := !L.Blocks[p.EndEdge.From.Succs[p.EndEdge.Idx]]
+		if leaves {
+			nExit++
+			if !(f1T || (f2T && lo >= 1)) {
+				why = "the loop can stop where neither the data ended nor a line break follows a non-empty line (index in [" + itoa(int(lo)) + ",…])"
+			}
+		} else {
+			nStay++
+			if !(f1F && (f2F || hi <= 0)) {
+				why = "the loop continues although the data ended or a line break follows a non-empty line"
+				if f1F && f2T {
+					why = "the loop continues although a line break follows a non-empty line (index up to " + itoa(int(hi)) + " stays): the end of that event is missed and it merges with the next one"
+				}
+			}
+		}
+	}
+	c.check(why == "" && nExit > 0 && nStay > 0, name+":scan-loop-exit", P.ipos(ni), "one iteration leaves the loop exactly at the end of the data or at a line break after a non-empty line ("+itoa(nExit)+" exit / "+itoa(nStay)+" continue paths)",
+		"the scan loop does not stop exactly at an event boundary: "+why)
+	c.ok(name+":scan-loop-paths", P.ipos(ni), itoa(len(paths))+" paths through one iteration enumerated")
 }
